@@ -109,6 +109,25 @@ Section C06.
     Forall wf ts -> valid_sol ts p1 -> valid_sol ts p2 -> py_safe (ssx E P eqb pr ts fresh [p1; p2] t).
   Proof. exact (ssx_safe E P eqb). Qed.
 
+
+  (* PMX: duplicate-free parents over the same elements, ANY cut: the `while n in replacement`
+     chains end within the fuel n+1 (termination = injectivity of the segment map) and both
+     offspring are permutations of the parents' elements *)
+  Theorem c06_pmx_cut_perm : forall p1 p2 cp1 cp2, NoDup p1 -> NoDup p2 -> Permutation p1 p2 ->
+    (cp1 <= cp2 < length p1)%nat ->
+    exists o1 o2, pmx_cut E eqb p1 p2 cp1 cp2 = Ok (o1, o2) /\ Permutation p1 o1 /\ Permutation p2 o2.
+  Proof. exact (pmx_cut_perm E eqb eqb_spec). Qed.
+
+  Theorem c06_pmx_valid : forall pr ts fresh p1 p2 t cs f t',
+    Forall wf ts -> valid_sol ts p1 -> valid_sol ts p2 ->
+    pmx E P eqb pr ts fresh [p1; p2] t = Ok (cs, f, t') -> two_children_ok ts fresh p1 p2 cs f.
+  Proof. exact (pmx_valid E P eqb eqb_spec). Qed.
+
+  (* in particular: never EFuel, never IndexError *)
+  Theorem c06_pmx_safe : forall pr ts fresh p1 p2 t,
+    Forall wf ts -> valid_sol ts p1 -> valid_sol ts p2 -> py_safe (pmx E P eqb pr ts fresh [p1; p2] t).
+  Proof. exact (pmx_safe E P eqb eqb_spec). Qed.
+
   (* ---------------------------------------------------------------- real-valued operators:
      every written variable is clip(candidate) (UM: the uniform(lb,ub) draw), hence valid *)
   Theorem c06_pm_valid : forall pr ts fresh p t c f t',
